@@ -24,6 +24,7 @@ type Ctx struct {
 	vars  map[string]CVal
 	local func(name string) (CVal, bool)
 	depth int
+	iter  *Ctx // context of the loop header (start of the current iteration), for iter(e)
 }
 
 func (c *Ctx) with(vars map[string]CVal) *Ctx {
@@ -293,6 +294,23 @@ func (c *Ctx) selField(b CVal, f string, x Expr) CVal {
 func (c *Ctx) evalCall(x *ECall) CVal {
 	e := c.e
 	switch x.Fn {
+	case "iter":
+		if len(x.Args) != 1 {
+			cfail("iter takes one argument")
+		}
+		if c.iter == nil {
+			cfail("iter() used outside a backedge / iteration / exit clause")
+		}
+		sub := *c.iter
+		sub.vars = map[string]CVal{}
+		for k, v := range c.iter.vars {
+			sub.vars[k] = v
+		}
+		for k, v := range c.vars { // bound variables of enclosing quantifiers
+			sub.vars[k] = v
+		}
+		sub.depth = c.depth + 1
+		return sub.eval(x.Args[0])
 	case "old":
 		if len(x.Args) != 1 {
 			cfail("old takes one argument")
@@ -419,7 +437,7 @@ func (c *Ctx) evalCall(x *ECall) CVal {
 		vars[p.Name] = v
 	}
 	// pure functions see only their parameters (and the heap)
-	sub := &Ctx{e: e, st: c.st, old: c.old, vars: vars, depth: c.depth + 1}
+	sub := &Ctx{e: e, st: c.st, old: c.old, vars: vars, depth: c.depth + 1, iter: c.iter}
 	r := sub.eval(pf.Body)
 	r.T = e.def("r_"+x.Fn, r.T)
 	return r
